@@ -154,10 +154,98 @@ def register(R):
         bounded='bounded_lazy_eval',
         note='dereferencing a held object that is no longer in the cache raises the dedicated missing-object error, never a stale value'))
 
+  # ---- the evaluation step: a traced call evaluates its function once on its evaluated arguments --------------------
+  TY = 'ml_metrics/_src/types.py'
+  from pyvc.builtins_ import callable_fn
+  from pyvc.calls import opaque_call
+
+  def applied(it, a, k):
+    '''what the (uninterpreted) callable f returns for these positional arguments'''
+    args = [it.to_obj(x) for x in a]
+    key = len(args) - 1
+    fn_ = opaque_call.get(key)
+    if fn_ is None:
+      fn_ = z3.Function(f'apply{key}', *([Obj] * (key + 2)))
+      opaque_call[key] = fn_
+    return VOpaque(fn_(*args))
+  R.spec(applied)
+
+  @R.spec
+  def nth_result(it, a, k):
+    '''result of the n-th call (0-based) of the named contracted function on this path'''
+    name, n = a[0].s, z3.simplify(it.to_int(a[1])).as_long()
+    hits = [r for nme, r in it.call_log if nme.endswith(name)]
+    return hits[n]
+
+  @R.spec
+  def is_lazy(it, a, k):
+    v = a[0]
+    return VBool(isinstance(v, VObj) and v.cls in ('LazyFn', 'LazyObject'))
+
+  @R.spec
+  def kw(it, a, k):
+    return VStr('kw:' + a[0].s)
+
+  # ASSUMED: the only Resolvable values are LazyObject / LazyFn; no registered maker applies to a plain value
+  R.add(Contract(f'{TY}::is_resolvable', 'trusted', types=dict(obj='obj'), ret='bool', ensures=['result == is_lazy(obj)']))
+  R.cls('_Makers', dict(data='obj'))
+  R.add(Contract(f'{LF}::_Makers.__getitem__', 'trusted', types=dict(self='_Makers', type_='obj'), ret='none'))
+  # the generic statement about evaluating any traced call (the variants below are what is proved about it)
+  R.add(Contract(f'{LF}::LazyFn.result_', 'trusted', variant='any', types=dict(self='LazyFn'), ret='obj', inline=False, canary=False,
+                 requires=['not self._cache_result'], may_raise=['TypeError', 'ValueError'], note='call-site form: some object, one evaluation'))
+
+  def _lazy_args(*kinds, kwargs=(), same=False):
+    def setup(it, env):
+      slf = env['self']
+      items = [it.fresh('LazyFn' if kd == 'lazy' else 'obj', f'arg{j}') for j, kd in enumerate(kinds)]
+      if same:
+        items[1] = items[0]
+      slf.f['args'] = VTuple(items)
+      slf.f['kwargs'] = VTuple([VTuple([VStr(n), it.fresh('LazyFn' if kd == 'lazy' else 'obj', f'kw_{n}')]) for n, kd in kwargs])
+      for x in items + [p.items[1] for p in slf.f['kwargs'].items]:
+        if isinstance(x, VObj):
+          it.assume(z3.Not(x.f['_cache_result'].t))
+      it.assume(callable_fn(it.to_obj(slf.f['value'])))
+    return setup
+
+  R.add(Contract(f'{LF}::_maybe_make', P, variant='plain', types=dict(maybe_lazy='obj'), ret='obj',
+                 when=lambda it, a, k: isinstance(a[0], VOpaque), ensures=['result is maybe_lazy', "ncalls('LazyFn.result_') == 0"],
+                 bounded='bounded_lazy_eval', note='a plain value is itself'))
+  R.add(Contract(f'{LF}::_maybe_make', P, variant='lazy', types=dict(maybe_lazy='LazyFn'), ret='obj',
+                 when=lambda it, a, k: isinstance(a[0], VObj), requires=['not maybe_lazy._cache_result'],
+                 may_raise=['TypeError', 'ValueError'],
+                 ensures=["ncalls('LazyFn.result_') == 1", "result is last_result('LazyFn.result_')"],
+                 bounded='bounded_lazy_eval', note='a traced call is evaluated, exactly once'))
+  never = lambda it, a, k: False
+  R.add(Contract(
+      f'{LF}::LazyFn.result_', P, variant='plain-and-lazy-argument', types=dict(self='LazyFn'), ret='obj', when=never,
+      setup=_lazy_args('plain', 'lazy'), requires=['not self._cache_result', 'not self._lazy_result', 'self.value is not None'],
+      may_raise=['TypeError', 'ValueError'],
+      # lazy == eager: the function is applied to the plain argument as it is and to the VALUE of the traced argument
+      # (_maybe_make is called for: the function, each argument in order, the result)
+      ensures=["ncalls('_maybe_make') == 4", "result is applied(self.value, self.args[0], nth_result('_maybe_make', 2))"],
+      bounded='bounded_lazy_eval'))
+  R.add(Contract(
+      f'{LF}::LazyFn.result_', P, variant='same-traced-argument-twice', types=dict(self='LazyFn'), ret='obj', when=never,
+      setup=_lazy_args('lazy', 'lazy', same=True), requires=['not self._cache_result', 'not self._lazy_result', 'self.value is not None'],
+      may_raise=['TypeError', 'ValueError'],
+      # the same sub-expression passed twice is evaluated twice (afresh each time), left to right
+      ensures=["ncalls('_maybe_make') == 4",
+               "result is applied(self.value, nth_result('_maybe_make', 1), nth_result('_maybe_make', 2))"],
+      bounded='bounded_lazy_eval'))
+  R.add(Contract(
+      f'{LF}::LazyFn.result_', P, variant='keyword-argument', types=dict(self='LazyFn'), ret='obj', when=never,
+      setup=_lazy_args('plain', kwargs=(('b', 'lazy'),)), requires=['not self._cache_result', 'not self._lazy_result', 'self.value is not None'],
+      may_raise=['TypeError', 'ValueError'],
+      # keyword arguments are evaluated too and passed under their own names
+      ensures=["ncalls('_maybe_make') == 4", "result is applied(self.value, self.args[0], kw('b'), nth_result('_maybe_make', 2))"],
+      bounded='bounded_lazy_eval'))
+
   R.bounded_checks[P] = [
       ('bounded_lru', 'LruCache get/set/clear histories vs reference LRU (small scope)'),
       ('bounded_lazy_eval', 'traced expression trees evaluate to the eager value, also after pickling; cache identity; missing-object error'),
   ]
   R.trusted[P] = ['A2 collections.OrderedDict modelled by per-key logical time stamps (insert / move_to_end = fresh stamp, first key = minimal stamp)',
-                  'A2 pickling round trip (cloudpickle/pickle) trusted; lazy_fns evaluation recursion only bounded',
+                  'A2 pickling round trip (cloudpickle/pickle) trusted; lazy_fns evaluation: one step under contract (uninterpreted callables are deterministic functions of their arguments), '
+                  'ASSUMED is_resolvable <=> LazyObject/LazyFn and no registered maker applies to plain values; deeper nesting by the recursion contract, pickled expressions bounded only',
                   'A4 sequential semantics', 'A7 pyvc engine, z3, cvc5']
